@@ -560,13 +560,16 @@ def HidOk (s : St) (last : List (Nat × Option Nat)) (ri : List Nat) : Prop :=
     ∃ (i : Nat) (c : Call), s.calls[i]? = some c ∧ c.inv = some k ∧
       (s.cur = some i ∨ CbItem.refcb r true false 0 0 ∈ s.pend.flatten)
 
-/-- preservation when the monitor's `last` does not change (the event is not a visible callback entry) -/
-theorem hidOk_step (s s' : St) (e : Ev) (last : List (Nat × Option Nat)) (ri ri' : List Nat)
-    (hi : Inv s) (hx : Idx s) (hrel' : RelInvOk s' ri') (h : HidOk s last ri) (hs : step s e = some s')
-    (hri : ∀ r, r ∈ ri → r ∈ ri')
-    (hcb : ∀ r, e ≠ .cb (.refcb r true false 0 0)) : HidOk s' last ri' := by
-  intro r k hmem hnr
-  obtain ⟨⟨pc, l, f, sf, t, hth, hpc⟩, i, c, hc, hk, hdisj⟩ := h r k hmem (fun hr => hnr (hri r hr))
+/-- what `HidOk` says about one pair -/
+def HidPair (s : St) (r k : Nat) : Prop :=
+  (∃ pc l f sf t, s.th[r]? = some (.ref .rcd pc l f sf t) ∧ pc ≠ .inv) ∧
+  ∃ (i : Nat) (c : Call), s.calls[i]? = some c ∧ c.inv = some k ∧
+    (s.cur = some i ∨ CbItem.refcb r true false 0 0 ∈ s.pend.flatten)
+
+theorem hidPair_step (s s' : St) (e : Ev) (ri' : List Nat) (r k : Nat)
+    (hi : Inv s) (hx : Idx s) (hrel' : RelInvOk s' ri') (h : HidPair s r k) (hs : step s e = some s')
+    (hnr : r ∉ ri') (hcb : e ≠ .cb (.refcb r true false 0 0)) : HidPair s' r k := by
+  obtain ⟨⟨pc, l, f, sf, t, hth, hpc⟩, i, c, hc, hk, hdisj⟩ := h
   obtain ⟨pc', l', f', sf', t', hth', hpc'⟩ := ref_persist s s' e hs r .rcd pc l f sf t hth hpc
   refine ⟨⟨pc', l', f', sf', t', hth', hpc'⟩, ?_⟩
   obtain ⟨c', hc', g, _⟩ := call_persist s s' e hi hx hs i c hc
@@ -581,7 +584,7 @@ theorem hidOk_step (s s' : St) (e : Ev) (last : List (Nat × Option Nat)) (ri ri
       · rw [h1]
         rw [hp] at hd
         have hne : CbItem.refcb r true false 0 0 ≠ it := by
-          intro e1; subst e1; exact hcb r he
+          intro e1; subst e1; exact hcb he
         simp only [List.flatten_cons, List.mem_append] at hd
         split
         · rename_i hemp
@@ -633,5 +636,225 @@ theorem hidOk_step (s s' : St) (e : Ev) (last : List (Nat × Option Nat)) (ri ri
       subst hlive
       have := gone_items s s' e hi hs i hcur0 hcur' r .rcd pc' f' sf' t' hth' (by simp)
       simpa using this
+
+
+theorem hidOk_step (s s' : St) (e : Ev) (last : List (Nat × Option Nat)) (ri ri' : List Nat)
+    (hi : Inv s) (hx : Idx s) (hrel' : RelInvOk s' ri') (h : HidOk s last ri) (hs : step s e = some s')
+    (hri : ∀ r, r ∈ ri → r ∈ ri')
+    (hcb : ∀ r, e ≠ .cb (.refcb r true false 0 0)) : HidOk s' last ri' := by
+  intro r k hmem hnr
+  exact hidPair_step s s' e ri' r k hi hx hrel' (h r k hmem (fun hr => hnr (hri r hr))) hs hnr (hcb r)
+
+
+/-! ## the simulation -/
+
+def RelHid (s : St) (m : HiddenSt) : Prop :=
+  Inv s ∧ Idx s ∧ ThInv s.th ∧ PendOk s ∧ AcctOk s ∧ ValOk s ∧ RelLast s.pend ∧ LatestOk s m.latest ∧
+  RelInvOk s m.relInv ∧ VOk s ∧ HidOk s m.last m.relInv ∧ SeenOk s ∧ InvalOk s m.inval
+
+theorem relHid_step (s s' : St) (e : Ev) (m m' : HiddenSt) (hR : RelHid s m) (hs : step s e = some s')
+    (hlat : LatestOk s' m'.latest)
+    (hri : ∀ r, r ∈ m.relInv → r ∈ m'.relInv) (hri2 : ∀ b r, e = .invRelease b r → r ∈ m'.relInv)
+    (hhid : RelInvOk s' m'.relInv → HidOk s' m'.last m'.relInv)
+    (hiv : ∀ k, k ∈ m'.inval → k ∈ m.inval ∨ e = .envReleased k) : RelHid s' m' := by
+  obtain ⟨hi, hx, ht, hp, ha, hv, hrl, _, hrel, hvo, _, hseen, hinv⟩ := hR
+  have hi' := step_inv s e s' hi hs
+  have hx' := idx_step s s' e hx hs
+  have ht' := step_thinv s s' e ht hs
+  have hp' := pendOk_step s s' e hi hx hp hs
+  have hv' := valOk_step s s' e hi hx hv hs
+  have hrel' := relInvOk_step s s' e _ _ hrel hs hri hri2
+  exact ⟨hi', hx', ht', hp', acctOk_step s s' e hi ha hs, hv', relLast_step s s' e hrl hs, hlat, hrel',
+    vOk_step s s' e hi ht' hvo hs, hhid hrel', seenOk_step s s' e hi hi' hx' hv' hp' hseen hs,
+    invalOk_step s s' e _ _ hi hx hinv hs hiv⟩
+
+theorem mem_setLast (l : List (Nat × Option Nat)) (r r' : Nat) (v : Option Nat) (k : Nat)
+    (h : (r', some k) ∈ setLast l r v) : (r' = r ∧ v = some k) ∨ (r' ≠ r ∧ (r', some k) ∈ l) := by
+  simp only [setLast, List.mem_cons, List.mem_filter] at h
+  rcases h with h | ⟨h1, h2⟩
+  · simp at h; exact Or.inl ⟨h.1, h.2.symm⟩
+  · exact Or.inr ⟨by simpa using h2, h1⟩
+
+theorem hid_sim_step (s : St) (e : Ev) (s' : St) (m : HiddenSt) (hR : RelHid s m) (hs : step s e = some s') :
+    match Ev.obs e with
+    | none => RelHid s' m
+    | some o => ∃ m', monHidden.step m o = some m' ∧ RelHid s' m' := by
+  have hR0 := hR
+  obtain ⟨hi, hx, ht, hp, ha, hv, hrl, hlat, hrel, hvo, hhid, hseen, hinv⟩ := hR
+  have same : (∀ j k v hh er, e ≠ .leave j k v hh er) → (∀ b r, e ≠ .invRelease b r) →
+      (∀ k, e ≠ .envReleased k) → (∀ r, e ≠ .cb (.refcb r true false 0 0)) → RelHid s' m := by
+    intro n1 n2 n3 n4
+    exact relHid_step s s' e m m hR0 hs (latest_other s s' e hi _ hlat hs n1) (fun _ h => h)
+      (fun b r he => absurd he (n2 b r))
+      (fun hrel' => hidOk_step s s' e _ _ _ hi hx hrel' hhid hs (fun _ h => h) n4)
+      (fun k h => Or.inl h)
+  cases e with
+  | leave j k v hh er =>
+    refine ⟨{ m with latest := some k }, by simp [Ev.obs, monHidden], ?_⟩
+    exact relHid_step s s' _ m _ hR0 hs (latest_leave s s' hi m.latest j k v hh er hs) (fun _ h => h)
+      (by intro b r he; cases he)
+      (fun hrel' => hidOk_step s s' _ _ _ _ hi hx hrel' hhid hs (fun _ h => h) (by simp))
+      (fun k h => Or.inl h)
+  | invRelease b r =>
+    refine ⟨{ m with relInv := r :: m.relInv }, by simp [Ev.obs, monHidden], ?_⟩
+    exact relHid_step s s' _ m _ hR0 hs (latest_other s s' _ hi _ hlat hs (by simp))
+      (fun _ h => List.mem_cons_of_mem _ h) (by intro b' r' he; cases he; exact List.mem_cons_self)
+      (fun hrel' => hidOk_step s s' _ _ _ _ hi hx hrel' hhid hs (fun _ h => List.mem_cons_of_mem _ h) (by simp))
+      (fun k h => Or.inl h)
+  | envReleased k =>
+    refine ⟨{ m with inval := k :: m.inval }, by simp [Ev.obs, monHidden], ?_⟩
+    exact relHid_step s s' _ m _ hR0 hs (latest_other s s' _ hi _ hlat hs (by simp)) (fun _ h => h)
+      (by intro b r he; cases he)
+      (fun hrel' => hidOk_step s s' _ _ _ _ hi hx hrel' hhid hs (fun _ h => h) (by simp))
+      (by
+        intro k' h
+        simp only [List.mem_cons] at h
+        rcases h with rfl | h
+        · exact Or.inr rfl
+        · exact Or.inl h)
+  | quiesce B =>
+    have hs0 := hs
+    simp only [step] at hs0; split at hs0 <;> simp at hs0
+    rename_i hq
+    obtain ⟨hpe, hrr, _⟩ := quiescent_settled s hi hq.1
+    have hok : monHidden.step m (.quiesce B) = some m := by
+      simp [monHidden]
+      intro r ok hmem hnr
+      cases ok with
+      | none => simp
+      | some k =>
+        simp
+        intro hkm
+        obtain ⟨_, i, c, hc, hck, hd⟩ := hhid r k hmem hnr
+        have hcur : s.cur = some i := by
+          rcases hd with hd | hd
+          · exact hd
+          · rw [hpe] at hd; simp at hd
+        obtain ⟨ci, _, hci, hni, _⟩ := hi.core.curSome i hcur
+        rw [hc] at hci; cases hci
+        rcases (hinv k hkm).2 i c hc hck with h1 | h1
+        · rw [hrr] at h1; cases h1
+        · omega
+    exact ⟨m, by simpa [Ev.obs] using hok, same (by simp) (by simp) (by simp) (by simp)⟩
+  | cb it =>
+    cases it with
+    | rel i k seen =>
+      have hs0 := hs
+      simp only [step] at hs0; split at hs0 <;> try simp at hs0
+      rename_i b rest hpe
+      have hmem : CbItem.rel i k seen ∈ s.pend.flatten := by rw [hpe]; simp; exact Or.inl hs0.1
+      have hin : relIn s.pend i k := ⟨b, by rw [hpe]; simp, seen, hs0.1⟩
+      obtain ⟨ci, hci, hcik⟩ := hp i k hin
+      have hone : 0 < relItems s.pend i := by
+        rw [hpe, relItems_cons]
+        have : 0 < b.countP (CbItem.isRel i) := by
+          rw [List.countP_pos_iff]; exact ⟨_, hs0.1, by simp [CbItem.isRel]⟩
+        omega
+      have hrelsd : ci.released = true := by
+        have := ha i
+        cases hr : released s i
+        · rw [hr] at this; simp [b2n] at this; omega
+        · simpa [released, hci] using hr
+      have hok : monHidden.step m (.cbinRel k seen) = some m := by
+        simp [monHidden]
+        refine ⟨hseen i k seen hmem, ?_⟩
+        intro r ok hm hok2
+        cases ok with
+        | none => simp at hok2
+        | some k' =>
+          simp at hok2; subst hok2
+          by_cases hr : r ∈ m.relInv
+          · exact hr
+          · exfalso
+            obtain ⟨_, i', c', hc', hk', hd⟩ := hhid r k' hm hr
+            have : i' = i := hx.inj i' i c' ci k' hc' hci hk' hcik
+            subst this
+            have e1 : c' = ci := by rw [hc'] at hci; exact Option.some.inj hci
+            rw [← e1] at hrelsd
+            rcases hd with hd | hd
+            · obtain ⟨cj, h, hcj, _, _, _, hres, _, hnr⟩ := hi.core.curSome i' hd
+              have e2 : c' = cj := by rw [hc'] at hcj; exact Option.some.inj hcj
+              rw [← e2] at hres hnr
+              obtain ⟨_, v, er, hres2⟩ := hi.core.relFin i' c' hc' hrelsd
+              rw [hres] at hres2; simp at hres2
+              have := hnr hres2.2.1; rw [hrelsd] at this; cases this
+            · rw [hpe] at hrl
+              obtain ⟨hrest, hall⟩ := relLast_head b rest hrl _ hs0.1 rfl
+              rw [hpe, hrest] at hd
+              simp at hd
+              have := hall _ hd; cases this
+      exact ⟨m, by simpa [Ev.obs] using hok, same (by simp) (by simp) (by simp) (by simp)⟩
+    | refcb r vis res v er =>
+      cases vis with
+      | false => exact same (by simp) (by simp) (by simp) (by simp)
+      | true =>
+        have hs0 := hs
+        simp only [step] at hs0; split at hs0 <;> try simp at hs0
+        rename_i b rest hpe
+        have hmem : CbItem.refcb r true res v er ∈ s.pend.flatten := by rw [hpe]; simp; exact Or.inl hs0.1
+        refine ⟨{ m with last := setLast m.last r (if res then m.latest else none) }, by simp [Ev.obs, monHidden], ?_⟩
+        refine relHid_step s s' _ m _ hR0 hs (latest_other s s' _ hi _ hlat hs (by simp)) (fun _ h => h)
+          (by intro b' r' he; cases he) ?_ (fun k h => Or.inl h)
+        intro hrel' r' k' hm hnr
+        rcases mem_setLast _ _ _ _ _ hm with ⟨rfl, hval⟩ | ⟨hne, hold⟩
+        · -- the reference that has just been told
+          cases res with
+          | false => simp at hval
+          | true =>
+            simp at hval
+            obtain ⟨⟨i, hcur⟩, pc, l, f, sf, t, hth, hpc⟩ := hvo r' v er hmem
+            obtain ⟨c, _, hc, _, _, _, hres, _⟩ := hi.core.curSome i hcur
+            have hlt := hlat.2 i c hcur hc
+            have hpair : HidPair s r' k' :=
+              ⟨⟨pc, l, f, sf, t, hth, hpc⟩, i, c, hc, by rw [← hlt]; exact hval, Or.inl hcur⟩
+            exact hidPair_step s s' _ _ r' k' hi hx hrel' hpair hs hnr (by simp)
+        · exact hidPair_step s s' _ _ r' k' hi hx hrel' (hhid r' k' hold hnr) hs hnr
+            (by intro he; simp at he; exact hne he.1.symm)
+  | cfg kp c t => exact ⟨m, rfl, same (by simp) (by simp) (by simp) (by simp)⟩
+  | invAddRef a kd => exact ⟨m, rfl, same (by simp) (by simp) (by simp) (by simp)⟩
+  | addRefCS a => exact same (by simp) (by simp) (by simp) (by simp)
+  | retAddRef a => exact ⟨m, rfl, same (by simp) (by simp) (by simp) (by simp)⟩
+  | relSwap b => exact same (by simp) (by simp) (by simp) (by simp)
+  | relCS b => exact same (by simp) (by simp) (by simp) (by simp)
+  | retRelease b => exact ⟨m, rfl, same (by simp) (by simp) (by simp) (by simp)⟩
+  | invSetCtx a c cl => exact ⟨m, rfl, same (by simp) (by simp) (by simp) (by simp)⟩
+  | setCtxCS a => exact same (by simp) (by simp) (by simp) (by simp)
+  | retSetCtx a u => exact ⟨m, rfl, same (by simp) (by simp) (by simp) (by simp)⟩
+  | envCancelCtx c => exact ⟨m, rfl, same (by simp) (by simp) (by simp) (by simp)⟩
+  | relRun r => exact same (by simp) (by simp) (by simp) (by simp)
+  | enter i k => exact ⟨m, rfl, same (by simp) (by simp) (by simp) (by simp)⟩
+  | giveUp i => exact same (by simp) (by simp) (by simp) (by simp)
+  | drained i => exact same (by simp) (by simp) (by simp) (by simp)
+  | store i => exact same (by simp) (by simp) (by simp) (by simp)
+  | done i => exact same (by simp) (by simp) (by simp) (by simp)
+  | invHook a => exact ⟨m, rfl, same (by simp) (by simp) (by simp) (by simp)⟩
+  | selfRelSwap a => exact same (by simp) (by simp) (by simp) (by simp)
+  | selfRelCS a => exact same (by simp) (by simp) (by simp) (by simp)
+  | probe v er => exact ⟨m, rfl, same (by simp) (by simp) (by simp) (by simp)⟩
+
+/-- **C08 (observable form, `monHidden`).** Every observable trace of the model is accepted by `monHidden`:
+`released` callbacks come only after every holder was told the value is gone, and at quiescence no held
+reference is still given a result whose `released()` was called. -/
+theorem rel_hidden_obs (es : List Ev) (s : St) (h : model.run model.init es = some s) :
+    monHidden.accepts (es.filterMap model.obs) = true :=
+  monitor_accepts_of_simulation model monHidden RelHid
+    ⟨init_inv, idx_init, thinv_nil, by intro i k ⟨b, hb, _⟩; simp [model] at hb,
+      by intro i; simp [model, relItems],
+      by intro i c v hh e k hc; simp [model] at hc,
+      by simp [model, RelLast],
+      ⟨by intro i c hc; simp [model] at hc, by intro i c hc; simp [model] at hc⟩,
+      ⟨by intro b r pc hb; simp [model] at hb, by intro r k pc f sf t hr; simp [model] at hr⟩,
+      by intro r v er hm; simp [model] at hm,
+      by intro r k hm; simp [monHidden] at hm,
+      by intro i k seen hm; simp [model] at hm,
+      by intro k hk; simp [monHidden] at hk⟩
+    (fun s e s' ms hR hs => by
+      have h := hid_sim_step s e s' ms hR hs
+      cases e with
+      | cb it =>
+        cases it with
+        | refcb r vis res v er => cases vis <;> exact h
+        | rel i k seen => exact h
+      | _ => exact h) es s h
 
 end UtilModel.RefCount
